@@ -91,7 +91,7 @@ def main(tier, seed, budget):
                         rep.harness_error('selftest job %s: %s' % (out[0], str(out[1])[-300:]))
                         continue
                     r = out[1]
-                    got.setdefault(job['tag'][0], []).append((r['digest'], tuple(sorted(r['hashes'].items())), repr(r['violation'])))
+                    got.setdefault(job['tag'][0], []).append((r['digest'], tuple(sorted(r['hashes'].items())), repr((r['violation'] or {}).get('sig'))))
                 bad = [k for k, v in got.items() if len(v) == 2 and v[0] != v[1]]
                 selftest['same_seed_twice'] = dict(pairs=len(got), mismatches=len(bad))
                 selftest['_digests'] = {k: v[0][0] for k, v in got.items() if v}
@@ -166,7 +166,7 @@ def main(tier, seed, budget):
                     stats['empty_slice_runs'] += 1
                 ss = sigs_of(a, r)
                 gk = (cfg_key(a), a['P'], hs, a['root_copy'])
-                if not ss:
+                if not ss and not r.get('real_expired'):
                     if gk not in groups:
                         groups[gk] = (a, r['hashes'])
                     elif groups[gk][1] != r['hashes']:
